@@ -74,6 +74,23 @@ Theorem C13_aug_name_rebinds : forall (g : nsp) p x op value v',
 Proof. exact aug_name_global. Qed.
 Print Assumptions C13_aug_name_rebinds.
 
+(* augmented assignment with an in-place method that may DECLINE (return NotImplemented): the emitted conditional stores
+   Python's value whenever the method, if there is one, does not decline (PARTIAL) ... *)
+Theorem C13_aug_binds_when_not_declined_partial : forall (Val : Type) (ni : Val) has_inplace inplace binary x o v,
+  (has_inplace x o = true -> inplace x o v <> None) ->
+  emitted_binding_ni Val ni has_inplace inplace binary x o v = py_augassign_ni Val has_inplace inplace binary x o v.
+Proof. exact emitted_binds_when_not_declined. Qed.
+Print Assumptions C13_aug_binds_when_not_declined_partial.
+
+(* ... and the unrestricted statement is refuted: a declining method makes the emitted code store NotImplemented where Python
+   falls back to the binary operator (known finding K-inplace-notimplemented, witness replayed on the real code on every run) *)
+Theorem C13_aug_binds_refuted :
+  exists (x v : nat) (o : binop),
+    emitted_binding_ni nat 0 (fun _ _ => true) (fun _ _ _ => None) (fun _ _ _ => 7) x o v
+    <> py_augassign_ni nat (fun _ _ => true) (fun _ _ _ => None) (fun _ _ _ => 7) x o v.
+Proof. exact emitted_binding_ni_refuted. Qed.
+Print Assumptions C13_aug_binds_refuted.
+
 Example C13_nonvacuous :
   unpack nat [TPlain "a"; TStar "b"; TPlain "c"; TPlain "d"] [1; 2; 3; 4; 5]
   = Some [("a"%string, BVal nat 1); ("b"%string, BList nat [2; 3]); ("c"%string, BVal nat 4); ("d"%string, BVal nat 5)].
